@@ -15,13 +15,18 @@ copying and whatever its signature is), value normal forms and success dependenc
                         that is found empty — in the scope closure itself or in a private function the joining is
                         delegated to: a dependency that is such a function's result stands for what every success
                         alternative of its body depends on); the entry returns the spawned child, and only if the copier succeeded;
-                        the panic payload of every joined thread (and of the scope) is re-raised; both pipes are piped;
-                        the returned Output carries the tee'd buffers
+                        the panic payload of every joined thread (and of a scope that hands one out: crossbeam's; std's
+                        scope re-raises by itself) is re-raised; both pipes are piped; the returned Output carries the
+                        buffers tee'd with the caller's writers at the (one) call of the entry that output_and_write_streams
+                        reaches — directly or through private functions, the buffers in locals or inside a private struct
   R4 tee                success of TeeWrite::write depends on write_all(buf) on both inner writers with the whole input
                         slice and yields Ok(buf.len()); flush flushes both (two statements or a loop over a table of both)
   R5 mapped writer      write appends every part of an in-order partition of the input (its bytes / its marker-terminated
                         segments; visited by a loop or by the closure of try_for_each / for_each / try_fold / fold on the
-                        same iterator) to the buffer field and flushes exactly when the part ends with the marker; returns
+                        same iterator; or the parts cut off after each first marker by a cursor loop — position + split_at,
+                        in write itself or in a private function that returns them with the marker-free rest, which is then
+                        appended once, unconditionally, after the last part) to the buffer field and flushes exactly when
+                        the part ends with the marker (parts that do by construction need no test); returns
                         Ok(buf.len()); the buffer is a field (state survives across write calls); everything written to
                         the inner writer is mapping_fn(take(buffer)); Drop and unwrap flush the remainder, unwrap takes
                         the inner writer afterwards (no double flush), and the remainder flush is guarded by a non-empty
@@ -56,6 +61,7 @@ MW = 'libherokubuildpack::write::MappedWrite::<W>::'
 SPAWN = {"crossbeam_utils::thread::Scope::<'env>::spawn", 'std::thread::scope::Scope::spawn', "std::thread::Scope::<'scope, 'env>::spawn"}
 JOIN = {"crossbeam_utils::thread::ScopedJoinHandle::<'_, T>::join", "std::thread::ScopedJoinHandle::<'scope, T>::join"}
 SCOPE = {'crossbeam_utils::thread::scope', 'std::thread::scope', 'std::thread::scoped::scope'}
+STD_SCOPE = {'std::thread::scope', 'std::thread::scoped::scope'}
 WAITS = ('std::process::Child::wait', 'std::process::Child::wait_with_output', 'std::process::Child::try_wait')
 TAKES = ('std::option::Option::<T>::take', 'std::mem::take', 'std::mem::replace')
 OPT_VIEWS = ('std::option::Option::<T>::as_mut', 'std::option::Option::<T>::as_ref', 'std::option::Option::<T>::as_deref_mut', 'std::option::Option::<T>::as_deref')
@@ -271,8 +277,10 @@ def run(ctx, rep):
     repanics = [strip(p[1]) for p in repanics if p[0] == 'unwrap_err']
 
     def reraised(call, args):
+        if call.names() & STD_SCOPE:
+            return True     # std::thread::scope re-raises a panic of its closure, and panics itself for a panicked thread nobody joined
         if not (call.dty or '').startswith('std::result::Result<'):
-            return True     # std::thread::scope propagates panics itself
+            return True     # no panic payload is handed out
         return any(p[0] == 'call' and len(p) == 4 and p[3] == (call.fn.path, call.bb) and (args is None or canon(p[2]) == canon(tuple(args))) for p in repanics)
     ok = len(joins) > 0 and all(reraised(j.call, j.args) for j in joins) and reraised(scope_call, None)
     rep.check(ok, 'R3', 'panic-reraised', w(wc), 'a panicked copier thread re-raises in the caller', 'copier panics are swallowed')
@@ -283,22 +291,55 @@ def run(ctx, rep):
     # the returned Output carries the buffers that were tee'd with the caller's writers, stream by stream
     ow = prog.find_one(r'^<std::process::Command as libherokubuildpack::command::CommandExt>::output_and_write_streams$')
     rep.analysed(ow)
-    spc = [c for g in [ow] + prog.closures_of(ow) for c in g.calls if c.name and c.name.endswith('spawn_and_write_streams')]
-    ok = len(spc) == 1
-    if ok:
-        tees = [strip(sl.operand(spc[0].fn, a)) for a in spc[0].args[1:3]]
-        ok = len(tees) == 2 and all(t[0] == 'call' and t[1] == 'libherokubuildpack::write::tee' for t in tees)
-        if ok:
-            bufs = [strip(t[2][0]) for t in tees]
-            users = [strip(t[2][1]) for t in tees]
-            ok = [u[2] for u in users if u[0] == 'param'] == [1, 2] and bufs[0] != bufs[1]
-            # success payload of the function: the same aggregate for `.map(|status| Output {..})` and `Ok(Output {..})`
-            ov = strip(sl.mk_unwrap(sl.local(ow, 0), 1))
-            if ok and ov[0] == 'agg' and (ov[1] or '').endswith('process::Output'):
-                fl = dict(ov[3])
-                ok = strip(fl.get('stdout', ('unknown',))) == bufs[0] and strip(fl.get('stderr', ('unknown',))) == bufs[1]
-            else:
-                ok = False
+    # the call of spawn_and_write_streams — made by output_and_write_streams itself or by a private function it delegates to —
+    # with its arguments in the terms of output_and_write_streams, helpers and private structs / tuples the buffers travel in
+    # made transparent by the normal form
+    SW = '<std::process::Command as libherokubuildpack::command::CommandExt>::spawn_and_write_streams'
+    Eo = Effects(prog, sl, vocab={SW: ('STREAMS', 0)})
+    spc = [e for e in Eo.expand(ow, 'may') if e.kind == 'STREAMS']
+    ok = len(spc) == 1 and len(spc[0].args) >= 3
+
+    def tee_parts(v, norm):
+        """(capture buffer, user writer) of a tee writer value: `tee(a, b)` / `TeeWrite { inner_a: a, inner_b: b }`"""
+        v = strip(norm(v))
+        if v[0] == 'call' and v[1] == 'libherokubuildpack::write::tee' and len(v[2]) == 2:
+            return strip(norm(v[2][0])), strip(norm(v[2][1]))
+        if v[0] == 'agg' and v[1] == 'libherokubuildpack::write::TeeWrite':
+            fl = dict(v[3])
+            if 'inner_a' in fl and 'inner_b' in fl:
+                return strip(fl['inner_a']), strip(fl['inner_b'])
+        return None
+
+    def contents(v):
+        """the Vec a field of the returned Output is: the buffer itself or what was taken out of it"""
+        v = strip(v)
+        while v[0] == 'call' and v[1] == 'std::mem::take' and len(v[2]) == 1:
+            v = strip(v[2][0])
+        return v
+
+    def carries_buffers(norm):
+        """at one level of normalisation (values as written / private helpers, structs and tuples made transparent): the two
+        tee writers handed to the entry pair two DISTINCT buffers (call-site identities included) with the caller's stdout /
+        stderr writer, and the success payload is an Output whose stdout / stderr are those buffers"""
+        tees = [tee_parts(a, norm) for a in spc[0].args[1:3]]
+        if any(t is None for t in tees):
+            return False
+        bufs = [t[0] for t in tees]
+        users = [t[1] for t in tees]
+        if [u[2] for u in users if u[0] == 'param' and u[1] == ow.path] != [1, 2] or bufs[0] == bufs[1]:
+            return False
+        # a buffer is a value of its own, not (part of) one of the caller's writers
+        if any(b[0] != 'call' or any(x[0] == 'param' and x[1] == ow.path and x[2] in (1, 2) for x in walk(b)) for b in bufs):
+            return False
+        # success payload of the function: the same aggregate for `.map(|status| Output {..})`, `Ok(Output {..})` and a
+        # private constructor function
+        ov = strip(norm(sl.mk_unwrap(sl.local(ow, 0), 1)))
+        if not (ov[0] == 'agg' and (ov[1] or '').endswith('process::Output')):
+            return False
+        fl = dict(ov[3])
+        return contents(fl.get('stdout', ('unknown',))) == bufs[0] and contents(fl.get('stderr', ('unknown',))) == bufs[1]
+    # (as written: two calls of one private constructor are two values; normalised: fields of private structs are visible)
+    ok = ok and (carries_buffers(lambda v: v) or carries_buffers(nf))
     rep.check(ok, 'R3', 'output-buffers', w(ow), 'Output.stdout / .stderr are the buffers tee\'d with the stdout / stderr writers', 'the returned Output does not carry the per-stream tee buffers')
 
     # ---- R2 --------------------------------------------------------------------------------------------
@@ -447,15 +488,31 @@ def run(ctx, rep):
                c.name.startswith('std::vec::Vec::<T, A>::') and c.name.rsplit('::', 1)[-1] in ('push', 'extend_from_slice', 'extend', 'append', 'insert', 'extend_from_within')]
     P = parts[0] if len(parts) == 1 else None
     body = P.body if P is not None else mw
-    ok = P is not None and len(appends) == 1 and appends[0].name in P.APPEND[P.kind] and P.in_body(appends[0].fn, appends[0].bb)
+    # a partition that hands out the marker-free rest as a value of its own (a cutting function's second result, the cursor
+    # after a cutting loop) has two appends: every marker-terminated part where the parts are visited, and the rest — once,
+    # unconditionally — after the last of them
+    part_app = [c for c in appends if P is not None and P.in_body(c.fn, c.bb)]
+    tail_app = [c for c in appends if c not in part_app]
+    app = part_app[0] if len(part_app) == 1 else None
+    ok = P is not None and app is not None and app.name in P.APPEND[P.kind]
+    if ok and P.has_tail:
+        ok = len(tail_app) == 1 and tail_app[0].name in P.APPEND[P.kind] and P.is_tail(tail_app[0].fn, tail_app[0], sl) and P.after_parts(tail_app[0].bb) \
+            and not mw.in_loop(tail_app[0].bb) and all(P.is_exhaust_cond(cd) for cd in conditions(mw, tail_app[0].bb, sl))
+    elif ok:
+        ok = not tail_app
     if ok:
-        ok = P.is_elem(sl.operand(body, appends[0].args[1]))
+        ok = P.is_elem(sl.operand(body, app.args[1]))
         # unconditional within the loop body
-        cds = conditions(body, appends[0].bb, sl)
-        ok = ok and not [cd for cd in cds if cd.kind == 'bool'] and all(P.is_elem(cd.subject) for cd in cds if cd.kind == 'variant' and cd.subject is not None)
+        cds = conditions(body, app.bb, sl)
+        ok = ok and not [cd for cd in cds if cd.kind == 'bool'] and all(P.is_elem(cd.subject) or P.is_next_cond(cd) for cd in cds if cd.kind == 'variant' and cd.subject is not None)
         # closure form: the consumer itself runs unconditionally
         ok = ok and (P.call is None or not conditions(mw, P.call.bb, sl))
-    rep.check(ok, 'R5', 'push-every-byte', w(mw), 'every input byte is appended to the buffer field', 'not every input byte reaches the buffer')
+    # no in-order partition of the input recognised at all: what the loops of write visit would need a loop invariant of its own
+    undecided = 'write visits its input in a way that is not a recognised in-order partition (bytes, split_inclusive segments, parts cut off by position + split_at): '
+    if P is None:
+        rep.unproven('R5', 'push-every-byte', w(mw), undecided + 'that every input byte is appended to the buffer field, in order, is not established')
+    else:
+        rep.check(ok, 'R5', 'push-every-byte', w(mw), 'every input byte is appended to the buffer field', 'not every input byte reaches the buffer')
     fcs = {}
     for e in flushes[mw.path]:
         tc = H.top_call(e, body)
@@ -469,10 +526,15 @@ def run(ctx, rep):
         test = [cd for cd in cds if any(oc is True and P.ends_with_marker(v, is_marker) for v, oc in cd.views())]
         # besides the marker test only "the buffer is not empty" may guard the flush (always true after the append)
         rest = [cd for cd in cds if cd not in test and not any(says_nonempty(v, oc, mw) for v, oc in cd.views())]
-        ok = ok and len(test) == 1 and not rest
-        ok = ok and len(appends) == 1 and appends[0].fn is body and body.dominates(appends[0].bb, fc.bb) and appends[0].bb != fc.bb
+        # parts that are marker-terminated by construction need no test (and the marker-free rest is not a part: a flush
+        # after its append would be a second flush site)
+        ok = ok and (len(test) == 1 or (P.terminated and not test)) and not rest
+        ok = ok and app is not None and app.fn is body and body.dominates(app.bb, fc.bb) and app.bb != fc.bb
         ok = ok and all(verdict(result_fates(prog, c.fn, c)) == 'ok' for c in [l.call for l in fe.chain] + [fe.call])
-    rep.check(ok, 'R5', 'flush-on-marker', w(mw), 'flush exactly when the pushed byte == marker_byte (after the push), error propagated', 'segment flush condition is not `byte == marker`')
+    if P is None:
+        rep.unproven('R5', 'flush-on-marker', w(mw), undecided + 'that the flush runs exactly after each part that ends with the marker is not established')
+    else:
+        rep.check(ok, 'R5', 'flush-on-marker', w(mw), 'flush exactly when the pushed byte == marker_byte (after the push), error propagated', 'segment flush condition is not `byte == marker`')
     malts = H.fn_alts(sl, sl, mw)
     ok = bool(malts) and all(is_len_of_buf(p, mw) for p, _ in malts)
     rep.check(ok, 'R5', 'returns-len', w(mw), 'returns Ok(buf.len())', 'mapped write does not consume the whole slice')
@@ -617,8 +679,8 @@ def run(ctx, rep):
 
     # frame: the pending bytes only change by the append in write and the take in the flush
     okay_sites = set(take_sites)
-    if len(appends) == 1:
-        okay_sites.add((appends[0].fn.path, appends[0].bb))
+    if app is not None and len(tail_app) == (1 if P is not None and P.has_tail else 0):
+        okay_sites.update((c.fn.path, c.bb) for c in [app] + tail_app)
     foreign = []
     for f in sorted(module_fns, key=lambda f: f.path):
         for kind, g, bb, c, idx in H.field_mutations(prog, f, 'buffer'):
